@@ -66,6 +66,7 @@ type bkState struct {
 	// connecting handlers parked inside attachClient (bk.connhold): "<stage>:<client id>" -> release channel
 	connHolds  map[string]chan struct{}
 	connParked chan string
+	hostile    map[int]*hostileConn // raw connections (hostile.go)
 }
 
 // yield is installed as mqtt.VerifYield: the new connection's handler waits after its CONNACK until
@@ -259,7 +260,9 @@ func (b *bkState) settle() bool {
 	for time.Now().Before(deadline) {
 		idle := true
 		for _, cl := range b.s.Clients.GetAll() {
-			if !cl.VerifOutboundIdle() {
+			// a stopped client's write loop has ended: what is left in its queue (WriteLoop's select may
+			// take the Done case while packets are still queued) will never be written and is not waited for
+			if !cl.Closed() && !cl.VerifOutboundIdle() {
 				idle = false
 			}
 		}
